@@ -162,6 +162,36 @@ theorem checkRow_complete (m : MonS σ π) (sess : σ) (r : Row) (h : checkRow m
     · exact hne
     · simp [hne] at h
 
+/-- **a resume never silently skips evicted messages**: a GET that resumes stream `t` at an index the store had
+already evicted (`frm < first`) must not be answered with an event stream -/
+def PurgeOK (first frm : Nat) (sse : Bool) : Prop := frm < first → sse = false
+
+theorem checkPurged_sound (m : MonS σ π) (o : Obs σ π) (x : Nat × Bool) (c : Clause08) (h : checkPurged m o x = some c) :
+    c = .purgedNotReported ∧ o.origin.isGet = true ∧ ∃ t, o.origin.stream = some t ∧ ¬ PurgeOK (m.first o.sess t) o.origin.from x.2 := by
+  unfold checkPurged at h
+  split at h
+  · rename_i hc
+    simp only [Bool.and_eq_true] at hc
+    split at h
+    · rename_i t ht
+      split at h
+      · rename_i hlt
+        cases h
+        exact ⟨rfl, hc.2, t, ht, fun ok => by have := ok hlt; rw [hc.1] at this; cases this⟩
+      · cases h
+    · cases h
+  · cases h
+
+theorem checkPurged_complete (m : MonS σ π) (o : Obs σ π) (x : Nat × Bool) (h : checkPurged m o x = none)
+    (hg : o.origin.isGet = true) (t : Nat) (ht : o.origin.stream = some t) : PurgeOK (m.first o.sess t) o.origin.from x.2 := by
+  intro hlt
+  unfold checkPurged at h
+  cases hx : x.2 with
+  | false => rfl
+  | true =>
+    simp only [hx, hg, Bool.and_self, if_true, ht, hlt] at h
+    cases h
+
 /-! ### the ground truth really is the list of appends -/
 
 /-- the payloads appended to stream `t` of session `s` by one record, in order -/
@@ -269,11 +299,17 @@ theorem foldV_appendOne_logs (prov : π → Prov σ) (s : σ) (t : Nat) : ∀ (l
     simp only [foldV]
     rw [ih, appendOne_logs, List.append_assoc, ← appendsTo_append]; rfl
 
+theorem applyPurges_logs (l : List (σ × Nat × Nat)) (m : MonS σ π) : (applyPurges m l).logs = m.logs := by
+  unfold applyPurges
+  exact foldl_logs (fun (m : MonS σ π) (x : σ × Nat × Nat) =>
+    { m with first := fun s t => if s = x.1 ∧ t = x.2.1 then max (m.first s t) x.2.2 else m.first s t }) (fun _ _ => rfl) l m
+
 /-- one record extends the ground-truth log of every stream by exactly the record's appends to it -/
 theorem step_logs (prov : π → Prov σ) (m : MonS σ π) (o : Obs σ π) (s : σ) (t : Nat) :
     (step prov m o).1.logs s t = m.logs s t ++ appendsTo s t o.appends := by
-  show (foldV (evStep prov) (foldV (appendOne prov) (learnIds (learnRows (openAll m o) o) o) o.appends).1 o.sent).1.logs s t = _
-  rw [foldV_logs _ (evStep_logs prov), foldV_appendOne_logs]
+  show (applyPurges (foldV (evStep prov) (foldV (appendOne prov) (learnIds (learnRows (openAll m o) o) o) o.appends).1 o.sent).1
+    o.purges).logs s t = _
+  rw [applyPurges_logs, foldV_logs _ (evStep_logs prov), foldV_appendOne_logs]
   have : (learnIds (learnRows (openAll m o) o) o).logs = m.logs := by
     unfold learnIds learnRows openAll
     rw [foldl_logs _ (learnId_logs o),
